@@ -12,7 +12,7 @@ PROP = {'technique': 'property-based testing (rapid): model-based fault historie
  'level_note': 'End-to-end over loopback QUIC with the smallest legal idle timeout (4 s); interleavings inside one call are sampled '
                'by the scheduler, not enumerated. Trusts the harness model and the in-process server of the same tree.',
  'rule': 'History = start (lazy|eager, fast-open or not) + 4..18 ops drawn state-dependently from {tcp(hold), udp, kill(sock|kick|'
-         'blackhole), serverDown(fast|real timeout), serverUp(same|new port), failNext(config|factory|auth, k), exhaustStreams(freeIfBlockedFor), '
+         'blackhole), serverDown(fast|real timeout), serverUp(same|new port), failNext(config|factory|auth, k), exhaustStreams(freeIfBlockedFor), idleWait (silence past the idle timeout after a silent loss), closeWhileConfigParked, '
          'release, Close} + Close + two calls after Close. Non-trivial: >=2 kills with a successful call between them, or a failing '
          'reconnect attempt, or Close after a kill. Distinct = distinct op sequence (with arguments). Concurrent check: non-trivial '
          '= at least one kill took effect and at least two connects happened; distinct = (workers, lazy, per-phase action@point).',
@@ -27,6 +27,8 @@ PROP = {'technique': 'property-based testing (rapid): model-based fault historie
                  'closing a superseded socket may be asynchronous: the census waits up to 3 s after the call returned'],
  'tests': [{'name': 'TestVerifC16_Regress_DeadClientSocketClosed', 'unit': UNIT, 'kind': 'plain', 'timeout_quick': 300, 'timeout_thorough': 300},
            {'name': 'TestVerifC16_Regress_StreamLimitRecoverable', 'unit': UNIT, 'kind': 'plain', 'timeout_quick': 300, 'timeout_thorough': 300},
+           {'name': 'TestVerifC16_Regress_SilentIdleLoss', 'unit': UNIT, 'kind': 'plain', 'timeout_quick': 300, 'timeout_thorough': 300},
+           {'name': 'TestVerifC16_Regress_CloseDuringConfig', 'unit': UNIT, 'kind': 'plain', 'timeout_quick': 300, 'timeout_thorough': 300},
            {'name': 'TestVerifC16_Histories', 'unit': UNIT, 'quick': 14, 'shards': 4, 'thorough': 150, 'shards_thorough': 12,
             'timeout_quick': 600, 'timeout_thorough': 3600, 'shrinktime': '60s'},
            {'name': 'TestVerifC16_Concurrent', 'unit': UNIT, 'quick': 25, 'shards': 2, 'thorough': 400, 'shards_thorough': 8,
